@@ -27,14 +27,15 @@ RULE = (
     "evaluated as the documented 'simplifies away' case (second alone must equal existing-then-new); further "
     "commutes are issued against the same relation object.  In 30 % of the cases the predicate objects of the pair "
     "are first handed to another operation (a join whose fixed operand supplies some of their columns), as a user "
-    "reusing a predicate object would; equal predicates share one object within a case. "
+    "reusing a predicate object would; equal predicates share one object within a case.  The new operation may be a "
+    "user-defined RowFilter / Reordering too (whatever commute() they inherit is judged like any other). "
 )
 ASSUMPTIONS = [
     "interpreter vmon/interp.py (full-row deduplication; witness rows satisfy the key functional dependency)",
     "commutators are specified for order-preserving engines, so lists are compared exactly",
 ]
 MIN_OBS = {"repeat_commutes_checked": 500, "predicates_used_elsewhere_first": 300, "witness_targets_evaluated": 2000, "refused": 100, "full": 300, "partial": 20}
-KINDS = ["calc", "dedup", "proj", "sel", "slice", "sort", "join"]
+KINDS = ["calc", "dedup", "proj", "sel", "slice", "sort", "join", "calc", "dedup", "proj", "sel", "slice", "sort", "join", "cap", "rev"]  # new operation; extension operations 1 in 8
 CURRENT_KINDS = ["calc", "dedup", "proj", "sel", "slice", "sort", "cap", "rev"]  # incl. extension operations
 _state: dict = {}
 
